@@ -106,7 +106,8 @@ def _leaves():
     add("KDRandomSolarize", lambda: kdt.KDRandomSolarize(p=0.5, threshold=128), "P", True)
     add("KDSolarize(int)", lambda: kdt.KDSolarize(threshold=100), "P", True)
     add("KDSolarize(float)", lambda: kdt.KDSolarize(threshold=0.4), "T", True)
-    add("KDRandomGrayscale(tensor)", lambda: kdt.KDRandomGrayscale(p=0.5), "T", True)
+    # keep=False: torchvision returns an expanded (memory-sharing) tensor; transforms writing in place must not follow it
+    add("KDRandomGrayscale(tensor)", lambda: kdt.KDRandomGrayscale(p=0.5), "T", False)
     add("KDRandomSolarize(tensor)", lambda: kdt.KDRandomSolarize(p=0.5, threshold=0.5), "T", True)
     add("KDGaussianBlurPIL(tensor input)", lambda: kdt.KDGaussianBlurPIL(sigma=(0.1, 2.0)), "T")
     add("KDRandomErasing(PIL->tensor)", lambda: kdt.KDComposeTransform([kdt.KDRandomResizedCrop(size=16), __import__("torchvision").transforms.ToTensor(),
